@@ -161,7 +161,29 @@ theorem invR_step {s s' : State} {t : Nat} {l : Label} (h : Inv s) (hr : InvR s)
       · simp only [hut, if_false] at hu
         exact (List.mem_erase_of_ne hut).mpr (R8 u hu)
   | fin6 cs => unfold step at hs; rw [hph] at hs; cases hs; rr
-  | linger => unfold step at hs; rw [hph] at hs; simp only at hs; split at hs <;> (first | (cases hs; done) | (cases hs; rr))
+  | linger =>
+    unfold step at hs; rw [hph] at hs; simp only at hs
+    split at hs
+    · cases hs; rr
+    · split at hs
+      · split at hs
+        · cases hs; rr
+        · cases hs
+          have hsub : ∀ p x, x ∈ (upd s.children (s.parent t) ((s.children (s.parent t)).erase t)) p → x ∈ s.children p := by
+            intro p x hx; simp only [upd] at hx; split at hx
+            · rename_i hp; subst hp; exact List.mem_of_mem_erase hx
+            · exact hx
+          obtain ⟨R0, R1, R2, R3, R4, R5, R6, R7, R8, R9⟩ := hr
+          refine ⟨?_, ?_, ?_, ?_, ?_, ?_, ?_, ?_, R8, R9⟩
+          · intro hpj c hcc; have := R0; grind [upd, Call.pastJoin]
+          · intro v hv0 hun; have := R1 v hv0; have := R1 t; grind [upd, Phase.unregistered]
+          · intro c hc0 hpc; have := R2 c hc0; grind [upd]
+          · intro v c hcu; have := R3 v c; grind [upd]
+          · intro cs hm c hcc; have := R4 cs; have := hsub 0 c hcc; grind [upd, Call.mainCs]
+          · grind [upd]
+          · intro p c hcc; exact R6 p c (hsub p c hcc)
+          · intro p c hcc; have := R7 p c hcc; grind [upd]
+      · cases hs
   | running =>
     cases hc : s.call t with
     | idle r => unfold step at hs; rw [hph] at hs; simp only [hc] at hs; cases hs
@@ -376,13 +398,18 @@ theorem invR_fireTill {s : State} (x : Nat) (hr : InvR s) : InvR (fireTill s x) 
   obtain ⟨R0, R1, R2, R3, R4, R5, R6, R7, R8, R9⟩ := hr
   exact ⟨R0, R1, R2, R3, R4, R5, R6, R7, R8, R9⟩
 
+theorem invR_expire {s : State} (t : Nat) (hr : InvR s) : InvR (expire s t) := by
+  obtain ⟨R0, R1, R2, R3, R4, R5, R6, R7, R8, R9⟩ := hr
+  exact ⟨R0, R1, R2, R3, R4, R5, R6, R7, R8, R9⟩
+
 theorem reach_invR {s : State} (h : sys.Reach s) : Inv s ∧ InvR s := by
   refine Sys.Reach.invariant sys (P := fun s => Inv s ∧ InvR s) ?_ ?_ ?_ h
   · intro s hi; cases hi; exact ⟨inv_init, invR_init⟩
   · intro s s' ⟨hi, hr⟩ he
-    rcases he with ⟨t, op, hc⟩ | ⟨x, rfl⟩
+    rcases he with ⟨t, op, hc⟩ | ⟨x, rfl⟩ | ⟨t, rfl⟩
     · exact ⟨inv_call hi hc, invR_call hi hr hc⟩
     · exact ⟨inv_fireTill x hi, invR_fireTill x hr⟩
+    · exact ⟨inv_expire t hi, invR_expire t hr⟩
   · intro s s' t l ⟨hi, hr⟩ hs
     exact ⟨inv_step hi hs, invR_step hi hr hs⟩
 
